@@ -732,6 +732,11 @@ func (e *MetaCDC) validCreateRequest(req *request.CreateRequest) error {
 	if req.RPCChannelInfo.Name != "" && req.RPCChannelInfo.Name != e.config.SourceConfig.ReplicateChan {
 		return servererror.NewClientError("the rpc channel is invalid, the channel name should be the same as the source config")
 	}
+	if req.RPCChannelInfo.Position != "" {
+		if _, err = util.Base64DecodeMsgPosition(req.RPCChannelInfo.Position); err != nil {
+			return servererror.NewClientError("fail to decode the rpc position data, err: " + err.Error())
+		}
+	}
 
 	if !isMilvusEmpty {
 		milvusConnectParam.Token = GetMilvusToken(milvusConnectParam)
@@ -795,9 +800,25 @@ func (e *MetaCDC) checkCollectionInfos(infos []model.CollectionInfo) error {
 		if len(info.Name) > e.config.MaxNameLength {
 			longNames = append(longNames, info.Name)
 		}
-		for positionChannel := range info.Positions {
+		// check all positions before anything is saved, because a create request which is rejected later
+		// has saved the positions of the previous channels
+		positionCollectionID := int64(-1)
+		for positionChannel, position := range info.Positions {
 			if !cdcreader.IsVirtualChannel(positionChannel) {
 				return servererror.NewClientError(fmt.Sprintf("the position channel name is not virtual channel, %s", positionChannel))
+			}
+			channelInfo, err := util.ParseVChannel(positionChannel)
+			if err != nil {
+				return servererror.NewClientError(fmt.Sprintf("the vchannel is invalid, %s, err: %s", positionChannel, err.Error()))
+			}
+			if _, err = util.Base64DecodeMsgPosition(position); err != nil {
+				return servererror.NewClientError(fmt.Sprintf("fail to decode the position data, channel: %s, err: %s", positionChannel, err.Error()))
+			}
+			if positionCollectionID == -1 {
+				positionCollectionID = channelInfo.CollectionID
+			}
+			if positionCollectionID != channelInfo.CollectionID {
+				return servererror.NewClientError("the channel position info should be in the same collection")
 			}
 		}
 	}
